@@ -85,12 +85,14 @@ def run(prop, tier, seed, profile, spec, interest, proof_files, n_quick=1500, n_
     n_viol = 0
     other = 0
     clauses = {}
-    for idx, m in sorted(masks.items()):
-        mask, fdk, mcode = ifam.decode(m)
-        case = cases[idx]
+    for idx, case in enumerate(cases):
+        # every case goes through the property's predicate: the clauses that look only at what the implementation
+        # produced (Pb in Python) apply also when model and implementation agree (mask 0)
+        m = masks.get(idx, 0)
+        mask, fdk, mcode = ifam.decode(m) if m else (0, None, ifam.impl_outcome(case))
         clause = interest(mask, fdk, mcode, case)
         if clause is None:
-            other += 1
+            other += 1 if m else 0
             continue
         clauses[clause] = clauses.get(clause, 0) + 1
         rep = ifam.describe_case(case, charts)
@@ -294,6 +296,8 @@ def interest_c10(mask, fdk, mcode, case):
 
 
 def interest_c13(mask, fdk, mcode, case):
+    if case['op'][0] == 'exec' and any(t != case['op'][1] for t in case.get('listener_times', [])):
+        return 'while a listener handles a meta-event of the step, the interpreter\'s time is not the value sampled for the step (C13_frozen)'
     if mask & B.PB_TIMES:
         return 'step time not frozen or entry/idle times not as the macro step says (C13_frozen/C13_entry_idle)'
     if case['op'][0] == 'queue' and mask & B.TIMES:
